@@ -102,6 +102,9 @@ package main
 // group: reports that passed the server's validation have no null program entries.
 //@ predicate noNilPrograms(rs): forall i int, j int :: 0 <= i && i < len(rs) && 0 <= j && j < len(rs[i].Programs) ==> rs[i].Programs[j] != nil
 
+// Report IDs are the reports' X values at full precision.
+//@ const reportID == float64
+
 //@ contract group
 //@   timeout 60
 //@   requires noNilPrograms(reports)
